@@ -180,6 +180,35 @@ impl<'a> QubitGraph<'a> {
     }
 }
 
+/// Verification hooks (add-only, compiled only with `--cfg rigetti_quil_rs_verif`): read access to
+/// the private graph and to the private `path_fold`.
+#[cfg(rigetti_quil_rs_verif)]
+impl QubitGraph<'_> {
+    /// `(node count, edges as (source index, target index) in insertion order)`
+    pub(crate) fn verif_edges(&self) -> (usize, Vec<(usize, usize)>) {
+        use petgraph::visit::EdgeRef;
+        (
+            self.graph.node_count(),
+            self.graph
+                .edge_references()
+                .map(|e| (e.source().index(), e.target().index()))
+                .collect(),
+        )
+    }
+
+    /// The raw result of `path_fold` with the closure `gate_depth` uses.
+    pub(crate) fn verif_path_counts(&self, gate_minimum_qubit_count: usize) -> Vec<usize> {
+        self.path_fold(0, |depth: usize, instruction: &Instruction| -> usize {
+            if let Instruction::Gate(gate) = instruction {
+                if gate.qubits.len() >= gate_minimum_qubit_count {
+                    return depth + 1;
+                }
+            }
+            depth
+        })
+    }
+}
+
 #[cfg(test)]
 mod tests {
     use crate::instruction::DefaultHandler;
